@@ -231,7 +231,19 @@ fn run_cycles<G: Cyc>(env: &mut Env, g: &G, members: &[usize], ctx: &Ctx, rng: &
                 if d.cmd == cmd::LRW { simdev::simnet::FaultAction::CorruptData } else { simdev::simnet::FaultAction::None }
             }));
         }
+        // "silent_status": ring positions of devices that do not answer their status check in this cycle
+        let silent: Vec<usize> = get_array(ctx.case, "silent_status").iter().filter_map(num).map(|x| x as usize).collect();
+        for &d in &silent {
+            if d < env.seg.devices.len() {
+                env.seg.device_mut(d).al_silent = true;
+            }
+        }
         let phase = env.run(g.cycle(md, ctx.variant == "sync"));
+        for &d in &silent {
+            if d < env.seg.devices.len() {
+                env.seg.device_mut(d).al_silent = false;
+            }
+        }
         env.seg.fault = None;
         let frames = env.capture_take();
 
